@@ -12,7 +12,7 @@ SUITE=$(PYTHONPATH=$W /venv/bin/python -m pytest -q -p no:cacheprovider --timeou
 cp /tmp/mut/$PID/demo$K.py $W/_demo.py
 sed -i "s#/tmp/wt/$PID#$W#g" $W/_demo.py
 PYTHONPATH=$W timeout 600 /venv/bin/python _demo.py >/tmp/cs/$PID-$K.with.log 2>&1; RC_WITH=$?
-git checkout -- . ; /venv/bin/python setup.py -q build_ext --inplace -j8 >/dev/null 2>&1
+git checkout -- . ; /venv/bin/python setup.py -q build_ext --inplace --force -j8 >/dev/null 2>&1
 PYTHONPATH=$W timeout 600 /venv/bin/python _demo.py >/tmp/cs/$PID-$K.without.log 2>&1; RC_WITHOUT=$?
 cd /verif
 git -C /repo worktree remove --force $W
